@@ -18,6 +18,7 @@ RULE = ('Model-based: brute-force interval model over rows (row finite and close
         'data set (page sizes 1,2,3,n-1,n,n+1, non powers of two, >n; p in 1..31), queries on the lattice +-1/2, degenerate, '
         'disjoint, all-covering; also through GeometryArray.sindex for d=2. Non-trivial: at least two pages, or a tie '
         'between a row edge and a query edge, or a NaN row present. distinct = enumerated (rows,config,query) triples + distinct E1 cases.')
+RULE += (' Added after the seeded rounds: the tree after a pickle round trip; 200-700 undefined rows in front and drawn rows repeated (n up to ~1600).')
 ASSUMPTIONS = ['queries have lo <= hi and no NaN (no caller passes anything else)', 'order of returned indices is not asserted']
 SCOPE = {'quick': {'d1_rows': 3, 'd2_rows': 2}, 'thorough': {'d1_rows': 4, 'd2_rows': 3}}
 EXHAUSTIVE = {'quick': True, 'thorough': True}
